@@ -28,7 +28,9 @@ def check(run, replay=None):
                  "m in {0,1,N-1,random} x r in {1,2,N-1,random} for mid/key-sized keys; random and boundary arbitrary "
                  "ciphertexts (1, N+1, N^2-1, N^2+1, 2^wC-1, uniform < 2^wC, uniform < N^2); byte strings of length "
                  "0..=2*BYTES+3 with values N-1, N, N+1, 2^(8 BYTES), 2^(8 BYTES)-1, 0, random, zero-extended / "
-                 "with a non-zero byte beyond the value. A sample of these records is evaluated by the Coq model. "
+                 "with a non-zero byte beyond the value, or with several excess bytes that cancel under xor / a wrapping sum; "
+                 "carry-boundary plaintexts m = -N^-1 mod 2^w for every limb boundary w up to the plaintext width (and m +- 1) "
+                 "under mid-size and key-sized keys (one key per configuration admits the full-width one). A sample of these records is evaluated by the Coq model. "
                  "non-trivial = distinct in-Coq record with operands other than 0/1 (enc: m != 0 and r != 1)"),
     }
     pc.run_check(run, replay, "C07", "c07",
